@@ -49,7 +49,9 @@ var Texts = []string{"BL", "1.2.3", "sha-256", "TF-M_SHA256MemPreXIP", "ünïcö
 	// text that equals a member name / a profile name
 	"psa-profile", "eat-profile", "psa-nonce", "PSA_IOT_PROFILE_1", "http://arm.com/psa/2.0.0", "null", "true", "{}", "[]",
 	// names an implementation might be tempted to normalise, things that are not URIs, surrounding white space, trailing NUL
-	"SHA256", "SHA_384", "sha512", "192.0.2.1:8443", "100%", "a b#c%zz", ":", " padded ", "trailing-nul\x00", "\u00a0", "\t", "\ufffd", "a\ufffdb", "\ufeff"}
+	"SHA256", "SHA_384", "sha512", "192.0.2.1:8443", "100%", "a b#c%zz", ":", " padded ", "trailing-nul\x00", "\u00a0", "\t", "\ufffd", "a\ufffdb", "\ufeff",
+	// wording of the library's own error sentinels (an error message that quotes the value must not change class)
+	"not in profile", "missing optional", "missing mandatory claim", "wrong syntax"}
 
 // LongTexts: strings whose length in octets and in characters differ widely
 // and straddle 64 / 255 / 256 (code that measures one and cuts by the other
@@ -361,11 +363,16 @@ func Variants(p int, claim string) []Variant {
 				Variant{Name: "empty", Coarse: "just-outside", Apply: func(a *Claims, g *Gen) { a.Profile = sp("") }},
 				Variant{Name: "near", Coarse: "just-outside", Apply: func(a *Claims, g *Gen) { a.Profile = sp("PSA_IOT_PROFILE_2") }},
 				Variant{Name: "lower", Coarse: "just-outside", Apply: func(a *Claims, g *Gen) { a.Profile = sp("psa_iot_profile_1") }},
+				// a name made of the wording of an ignorable error sentinel
+				Variant{Name: "sentinel-text-1", Coarse: "wrong-shape", Apply: func(a *Claims, g *Gen) { a.Profile = sp("not in profile") }},
+				Variant{Name: "sentinel-text-2", Coarse: "wrong-shape", Apply: func(a *Claims, g *Gen) { a.Profile = sp("missing optional") }},
 			)
 		} else {
 			vs = append(vs,
 				Variant{Name: "near", Coarse: "just-outside", Apply: func(a *Claims, g *Gen) { a.Profile = sp("http://arm.com/psa/2.0.1") }},
 				Variant{Name: "near2", Coarse: "just-outside", Apply: func(a *Claims, g *Gen) { a.Profile = sp("http://arm.com/psa/2.0.0/") }},
+				Variant{Name: "sentinel-text-1", Coarse: "wrong-shape", Apply: func(a *Claims, g *Gen) { a.Profile = sp("urn:not in profile") }},
+				Variant{Name: "sentinel-text-2", Coarse: "wrong-shape", Apply: func(a *Claims, g *Gen) { a.Profile = sp("tag:example.com,2024:missing optional") }},
 			)
 		}
 		return vs
